@@ -29,8 +29,9 @@ type Cfg struct {
 	DotNot      bool   `json:"dot_notation,omitempty"`
 	FieldSep    string `json:"field_sep,omitempty"`
 	UseNumber   bool   `json:"use_number,omitempty"`
-	CastPerm    int    `json:"cast_setter_order,omitempty"` // index of the order in which the cast setters are called (0 = int, float, bool, nan/inf)
-	Toggle      bool   `json:"toggle_forms,omitempty"`      // boolean options are switched with the no-argument (toggle) form of their setter
+	CastPerm    int    `json:"cast_setter_order,omitempty"`                   // index of the order in which the cast setters are called (0 = int, float, bool, nan/inf)
+	NoOpSetters bool   `json:"explicit_default_setters_afterwards,omitempty"` // setters called with their current (default) value after the others: must change nothing
+	Toggle      bool   `json:"toggle_forms,omitempty"`                        // boolean options are switched with the no-argument (toggle) form of their setter
 }
 
 func defCfg() Cfg { return Cfg{AttrPrefix: "-", KeyPrefix: "#"} }
@@ -220,6 +221,48 @@ func applyCfg(c Cfg) {
 		mxj.SetFieldSeparator(c.FieldSep)
 	}
 	mxj.JsonUseNumber = c.UseNumber
+	if c.NoOpSetters {
+		// every boolean option that is still at its default is set to that default explicitly
+		if !c.EscDec {
+			mxj.XMLEscapeCharsDecoder(false)
+		}
+		if !c.EscEnc {
+			mxj.XMLEscapeChars(false)
+		}
+		if !c.Lower {
+			mxj.CoerceKeysToLower(false)
+		}
+		if !c.Snake {
+			mxj.CoerceKeysToSnakeCase(false)
+		}
+		if !c.SimpleMap {
+			mxj.DecodeSimpleValuesAsMap(false)
+		}
+		if !c.KeepSpaces {
+			mxj.DisableTrimWhiteSpace(false)
+		}
+		if !c.SeqNum {
+			mxj.IncludeTagSeqNum(false)
+		}
+		if !c.CastInt {
+			mxj.CastValuesToInt(false)
+		}
+		if !c.NoFloat {
+			mxj.CastValuesToFloat(true)
+		}
+		if !c.NoBool {
+			mxj.CastValuesToBool(true)
+		}
+		if !c.NanInf {
+			mxj.CastNanInf(false)
+		}
+		if !c.CheckValid {
+			mxj.XmlCheckIsValid(false)
+		}
+		if !c.DotNot {
+			mxj.LeafUseDotNotation(false)
+		}
+	}
 }
 
 // mustBeDefault is called by checks that assume default options.
